@@ -23,6 +23,14 @@ CHECKS = {
             "Runtime monitor: accusations about the node itself (type x incarnation relation incl. far-ahead x path incl. ping-piggyback and push/pull) are injected into a real node; after each one the refutation rule is checked on the dump and the decoded broadcast queue (incarnation strictly above accusation, alive with own addr/meta/vsn queued, health +1, ping still acked; stale => no effect), and the always-on invariant monitor (self alive and listed) runs at every quiescent point, also in 4-node restart scenarios where peers remember a higher incarnation.",
             "Trusts the wire codec, verif accessors, synctest quiescence; accusations at 2^32-1 are outside the statement and not generated.",
             "invariant monitor + post-accusation oracle on queue/dump", "DESIGN.md §3 C02"),
+    "C06": ("E2 (timer object in virtual time) + E2-rig", "exploration",
+            "Runtime monitor in virtual time. Layer 1 drives the real suspicion timer with PRNG (offset, confirmer) scripts and compares the callback instant, count and Confirm results against the documented logarithmic schedule. Layer 2 lets a real node suspect a silent target on its own probes, checks that k/min/max equal the values derived from configuration and cluster size (not from anything else such as the node's health), delivers confirmations / a refutation followed by re-suspicion / a foreign death claim at scripted offsets and compares the NotifyLeave instant with the schedule and the [min,max] bounds.",
+            "Trusts synctest's fake clock (timers fire at exact instants), the oracle's re-implementation of the documented formula, the wire codec.",
+            "virtual-time schedule oracle on timer object and on end-to-end leave instants", "DESIGN.md §3 C06"),
+    "C18": ("E2-rig", "exploration",
+            "Runtime monitor: for five allowlists x 13 advertised-address classes (incl. v4-mapped, absent, malformed lengths) x 5 prior states of the name x 9 carriers (UDP alive from allowed/disallowed/unparsable source, compound, compressed, push/pull join/non-join, join from a disallowed host) a higher-incarnation alive claim is injected into a real node; after each step the subject record, and periodically every record / Members() entry / event, must satisfy an independent net/netip predicate, and disallowed claims must leave record, member count, event count (and, for disallowed sources, the queue) unchanged. Positive control counted.",
+            "Trusts net/netip, the wire codec, verif accessors. Empty allowlist = allow-all is a code convention outside the property (not generated).",
+            "invariant monitor with independent CIDR predicate over injected claims", "DESIGN.md §3 C18"),
 }
 
 NOT_YET = "check not built yet in this round (design in DESIGN.md §3); not claimed until its monitor runs clean on the unchanged tree"
@@ -59,7 +67,7 @@ def main():
         },
         "engines": [
             {"name": "E1-simnet", "path": "harness/simnet.go", "serves_properties": [], "kind_free_text": "real Memberlist instances on an in-memory transport inside a testing/synctest bubble (virtual time), with wire tap, fault scripts and fake peers"},
-            {"name": "E2-model-lockstep", "path": "harness/", "serves_properties": ["C01", "C02", "C10", "C17"], "kind_free_text": "PRNG operation sequences against one object with an executable reference model evaluated in lock-step"},
+            {"name": "E2-model-lockstep", "path": "harness/", "serves_properties": ["C01", "C02", "C06", "C10", "C17", "C18"], "kind_free_text": "PRNG operation sequences against one object with an executable reference model evaluated in lock-step"},
         ],
         "checks": checks,
         "not_applicable": [{"property_id": p, "reason": NOT_YET} for p in ALL if p not in CHECKS],
